@@ -40,13 +40,14 @@ func planner(d string) migrate.PlanApplier {
 func Render(c Case, perm int64) (map[string]string, error) {
 	out := map[string]string{}
 	base := c02.Base(c.Dialect)
-	// a second, independent foreign-key chain (accounts <- invoices <- payments) next to users <- posts <- tags,
+	// a second, independent foreign-key chain (ledgers <- invoices <- payments) next to users <- posts <- tags,
 	// so that the order in which independent dependency chains are visited matters
 	it := c02.IntType(c.Dialect)
 	base.Tables = append(base.Tables,
+		gm.Table{Name: "ledgers", Cols: []gm.Col{{Name: "id", Type: it}}, PK: []gm.Part{{Col: "id"}}},
 		gm.Table{Name: "invoices", Cols: []gm.Col{{Name: "id", Type: it}, {Name: "account_id", Type: it, Null: true}}, PK: []gm.Part{{Col: "id"}},
 			Indexes: []gm.Index{{Name: "idx_invoices_account", Parts: []gm.Part{{Col: "account_id"}}}},
-			FKs:     []gm.FK{{Name: "fk_invoices_account", Cols: []string{"account_id"}, RefTable: "accounts", RefCols: []string{"id"}, OnDelete: "CASCADE", OnUpdate: "CASCADE"}}},
+			FKs:     []gm.FK{{Name: "fk_invoices_account", Cols: []string{"account_id"}, RefTable: "ledgers", RefCols: []string{"id"}, OnDelete: "CASCADE", OnUpdate: "CASCADE"}}},
 		gm.Table{Name: "payments", Cols: []gm.Col{{Name: "id", Type: it}, {Name: "invoice_id", Type: it, Null: true}}, PK: []gm.Part{{Col: "id"}},
 			Indexes: []gm.Index{{Name: "idx_payments_invoice", Parts: []gm.Part{{Col: "invoice_id"}}}},
 			FKs:     []gm.FK{{Name: "fk_payments_invoice", Cols: []string{"invoice_id"}, RefTable: "invoices", RefCols: []string{"id"}, OnDelete: "CASCADE", OnUpdate: "CASCADE"}}},
